@@ -171,7 +171,7 @@ def generate(family, rng, tier):
                 for ii in range(rng.randint(1, 3)):
                     insts.append({"of": rng.choice(["CELL", "CELL", "buf", "and", "FD"]), "name": rng.choice([None, None, "u0", "table", "x", "data", "q_1"]),
                                   "attrs": rng.sample(ATTRS, rng.randint(2, 4)) if rng.random() < 0.4 else []})
-            designs.append({"signals": sigs, "duid_offset": 0, "mems": mems, "insts": insts})
+            designs.append({"signals": sigs, "duid_offset": 0, "mems": mems, "insts": insts, "reuse": rng.choice([0, 0, 1, 2, 3])})
             if not any(s["io"] for s in sigs):
                 sigs[0]["io"] = True
         # the same program in every interpreter (same DUIDs): only the interpreter's hash seed differs
@@ -322,7 +322,30 @@ for d in batch["designs"]:
     except Exception as e:
         text, names, snames, err = "", [], [], "%%s: %%s" %% (type(e).__name__, e)
     text = "\n".join(l for l in text.splitlines() if "auto-generated" not in l.lower() and "date" not in l.lower())
-    out.append({"text": text, "names": names, "snames": snames, "err": err})
+    text2 = None
+    if d.get("reuse") and err is None:
+        # a second netlist in the same process that reuses Signal objects of the first one: what were its ports are internal signals
+        # now, next to new ports that carry the same names (a core generated standalone first and then inside a wrapper)
+        m2 = Module()
+        m2.clock_domains.cd_sys = ClockDomain("sys")
+        ios2 = set()
+        k2 = 0
+        for sig in objs:
+            if sig in ios and k2 < d["reuse"]:
+                nm = r.ns.get_name(sig)
+                pin = Signal(len(sig), name_override=nm)
+                pout = Signal(len(sig))
+                pout.backtrace = [("ro%%d" %% k2, 0)]
+                m2.comb += [sig.eq(pin ^ 1), pout.eq(sig)]
+                ios2 |= {pin, pout}
+                k2 += 1
+        try:
+            text2 = verilog.convert(m2, ios=ios2, name="wrapper").main_source if k2 else None
+        except Exception as e:
+            text2 = "ERROR %%s: %%s" %% (type(e).__name__, e)
+        if text2:
+            text2 = "\n".join(l for l in text2.splitlines() if "auto-generated" not in l.lower() and "date" not in l.lower())
+    out.append({"text": text, "names": names, "snames": snames, "err": err, "text2": text2})
 json.dump(out, sys.stdout)
 '''
 
@@ -366,6 +389,25 @@ def run_convert(scn):
         bad = [x for x in decl if x in KW]
         if bad:
             V("reserved_identifier", "design #%d text" % di, "reserved word(s) %s declared as signal names" % bad)
+        if a.get("text2"):
+            t2 = a["text2"]
+            checks += 2
+            if t2.startswith("ERROR "):
+                V("convert_failed", "design #%d wrapper" % di, "convert() of a second netlist reusing the signals of the first raised %s" % t2[6:])
+            else:
+                decl2 = re.findall(r"^\s*(?:input|output|inout)?\s*(?:wire|reg)\s+(?:signed\s+)?(?:\[[^\]]+\]\s+)?([A-Za-z_][A-Za-z0-9_$]*)", t2, re.M)
+                dup2 = sorted({x for x in decl2 if decl2.count(x) > 1})
+                if dup2:
+                    V("duplicate_declaration", "design #%d wrapper" % di, "identifier(s) %s declared more than once in a second netlist that reuses signals of the first (ports there, internal here)" % dup2)
+                used = set(re.findall(r"[A-Za-z_][A-Za-z0-9_$]*", "\n".join(l for l in t2.splitlines() if ("assign " in l or "<=" in l) and "//" not in l)))
+                undeclared = sorted(x for x in used if x not in decl2 and x not in KW and x not in ("assign", "d", "b", "h", "sd", "sb", "sh", "signed") and not re.fullmatch(r"[0-9]+.*", x)
+                                    and not re.fullmatch(r"[dbh][0-9a-fA-F_xz]+|s[dbh][0-9a-fA-F_xz]+", x))
+                if undeclared:
+                    V("undeclared_identifier", "design #%d wrapper" % di, "identifier(s) %s used but never declared in the second netlist" % undeclared[:4])
+            for k in (1, 2):
+                checks += 1
+                if outs[k][di].get("text2") != t2:
+                    V("not_reproducible", "design #%d wrapper" % di, "text of the second netlist differs between interpreters")
         for k in (1, 2):
             checks += 1
             if outs[k][di]["text"] != a["text"]:
